@@ -1,5 +1,5 @@
 (** C08 — Decoded messages own their memory; encoded output is a fresh buffer. *)
-From DV Require Import Base.Bytes Alias.Model Alias.Tie Gen.Alias.
+From DV Require Import Base.Bytes Alias.Model Alias.Tie Alias.History Gen.Alias.
 From Coq Require Import String.
 
 (** The memory contract of the decoders ("Consume, but do not Copy. Each
@@ -21,6 +21,27 @@ Print Assumptions C08_copying_primitives.
 Theorem C08_no_retention_sites : retention_sites = expected_retention_sites.
 Proof. exact retention_sites_match. Qed.
 Print Assumptions C08_no_retention_sites.
+
+(** Over histories: after EVERY overwrite of a sequence of in-place overwrites of the source
+    buffer (any offsets, lengths and contents) the value observed is the one decoded. *)
+Theorem C08_owned_over_histories : forall v, owns v -> forall ws buf,
+  Forall (fun o => o = presolve buf v) (observe v buf ws).
+Proof. exact owned_history. Qed.
+Print Assumptions C08_owned_over_histories.
+
+(** The converse: a value that keeps a view of at least one octet of the buffer IS changed by an
+    overwrite - so the absence of retention sites is what the property needs, not merely enough. *)
+Theorem C08_view_is_observable : forall v buf off len,
+  In (View off len) (leaves v) -> slice buf off len <> [] ->
+  exists w, List.length (overwrite buf w) = List.length buf /\ presolve (overwrite buf w) v <> presolve buf v.
+Proof. exact view_is_observable. Qed.
+Print Assumptions C08_view_is_observable.
+
+Theorem C08_independent_iff_no_octet_shared : forall v buf,
+  (forall buf', List.length buf' = List.length buf -> presolve buf' v = presolve buf v)
+  <-> Forall (harmless buf) (leaves v).
+Proof. exact independent_iff_harmless. Qed.
+Print Assumptions C08_independent_iff_no_octet_shared.
 
 (** In the pure model encodings are fresh lists by construction; that the
     real ToBytes results do not share memory with the message or with earlier
